@@ -59,13 +59,29 @@ def pystr(v):
     return str(v)
 
 
+class Fault(Exception):
+    """an exception raised by a callable of the namespace: it must propagate unchanged, whatever its class"""
+
+    def __init__(self, cls):
+        self.cls = cls
+
+
 class Oracle:
     """the documented rule, evaluated over the abstract program"""
 
-    def __init__(self, b):
+    def __init__(self, b, faults=(), fault_cls=ValueError):
         self.b = b
         self.calls = []
         self.out = []
+        self.faults = set(faults)
+        self.fault_cls = fault_cls
+
+    def invoke(self, fid, result):
+        n = len(self.calls)
+        self.calls.append(fid)
+        if n in self.faults:
+            raise Fault(self.fault_cls)
+        return result
 
     def lookup(self, n, caches, call):
         for c in reversed(caches):
@@ -77,8 +93,7 @@ class Oracle:
         if bd[0] == 'val':
             return bd[1]
         if call:
-            self.calls.append(bd[1])
-            return bd[2]
+            return self.invoke(bd[1], bd[2])
         return bd      # the callable itself (truthy)
 
     def cond_value(self, src, caches):
@@ -93,8 +108,7 @@ class Oracle:
         e = src[1]
         if e[0] == 'call':
             bd = self.lookup(e[1][1], caches, False)
-            self.calls.append(bd[1])
-            return bd[2]
+            return self.invoke(bd[1], bd[2])
         if e[0] == 'not':
             return not truthy(self.lookup(e[1][1], caches, False))
         if e[0] == 'eq':
@@ -175,7 +189,7 @@ def make_src(b, i, kind, name=None):
     if kind in NAME_KINDS:
         b.bind(n, kind)
         return ['n', n]
-    h = 'e%d' % i
+    h = name if (name and kind not in NAME_KINDS) else 'e%d' % i
     if kind == 'x_call_t':
         b.bind(h, 'fn_t')
         return ['e', ['call', ['name', h]]]
@@ -249,6 +263,13 @@ def gen_random(r):
                     prev = [s[1] for s in srcs if s[0] == 'n']
                     if prev:
                         nm = r.choice(prev)       # the same name again: must hit the cache
+                if kd in EXPR_KINDS and i > 0 and r.random() < 0.3:
+                    # the same expression text again in a later branch: expressions are NOT cached, it is evaluated again
+                    prev_e = [(s[1][1][1] if s[1][0] in ('call', 'not') else None, k2) for s, k2 in zip(srcs, kinds)
+                              if s[0] == 'e' and k2 == kd]
+                    prev_e = [x for x in prev_e if x[0]]
+                    if prev_e:
+                        nm = prev_e[-1][0]
                 srcs.append(make_src(b, i + 10 * len(key), kd, nm))
                 kinds.append(kd if nm is None else 'repeat')
             names = [s[1] for s in srcs if s[0] == 'n']
@@ -272,28 +293,45 @@ def gen_random(r):
     return b, blocks, tuple(key)
 
 
-def predict(b, blocks):
-    o = Oracle(b)
-    o.render(blocks, [])
-    return ''.join(o.out), o.calls
+def predict(b, blocks, faults=(), fault_cls='ValueError'):
+    o = Oracle(b, faults, fault_cls)
+    try:
+        o.render(blocks, [])
+    except Fault as f:
+        return {'raise': f.cls, 'msg': 'fault'}, o.calls
+    return {'ok': {'s': ''.join(o.out)}}, o.calls
 
 
-def check(res, items, have_driver):
+def check(res, items, have_driver, r=None):
     cases = [build_case(b, blocks) for b, blocks, _ in items]
+    plans = [((), 'ValueError')] * len(items)
+    all_items = list(items)
+    if r is not None:
+        # the same programs with the k-th callable invocation raising — also KeyError / NameError, which the namespace
+        # lookup must not mistake for "name not defined"
+        for it, c in zip(items, cases):
+            if r.random() < 0.5:
+                _, calls0 = predict(it[0], it[1])
+                for k in range(len(calls0)):
+                    all_items.append(it)
+                    cases.append(c)
+                    plans.append(((k,), r.choice(['KeyError', 'NameError', 'ValueError', 'E2'])))
     res.have_driver = have_driver
-    runs = interp.run_cases(res, cases)
-    for (b, blocks, key), (c, plan, impl, m) in zip(items, runs):
+    runs = interp.run_cases(res, cases, plans)
+    for (b, blocks, key), (c, plan, impl, m) in zip(all_items, runs):
         res.evaluations += 1
-        exp_out, exp_calls = predict(b, blocks)
+        exp, exp_calls = predict(b, blocks, plan[0], plan[1])
         got = impl['result']
         got_calls = [e[1] for e in impl['events'] if e[0] == 'call']
-        ok = got == {'ok': {'s': exp_out}} and got_calls == exp_calls
-        res.nt(key)
+        ok = got == exp and got_calls == exp_calls
+        res.nt((key, plan[0] != (), plan[1] if plan[0] else ''))
         res.count('form=' + '+'.join(k[0] for k in ([key] if isinstance(key[0], str) else key)))
+        if plan[0]:
+            res.count('fault=' + plan[1])
         if not ok:
-            res.oracle_fail.append({'case': {'source': c['templates'][0]['source'], 'namespace': c['kw']},
-                                    'what': 'expected output %r with calls %r; got %r with calls %r' % (
-                                        exp_out, exp_calls, got, got_calls)})
+            res.oracle_fail.append({'case': {'source': c['templates'][0]['source'], 'namespace': c['kw'], 'faults': list(plan[0]),
+                                             'fault_cls': plan[1]},
+                                    'what': 'expected %r with calls %r; got %r with calls %r' % (exp, exp_calls, got, got_calls)})
         if m is not None:
             d = interp.compare(impl, m)
             if d == 'oom':
@@ -310,7 +348,8 @@ def run(res, tier, have_driver):
     res.rule = ('dtml-if chains of 1..5 conditions (+else), dtml-unless, dtml-call; conditions = names bound to plain true/false '
                 'values, None, callables with a logged side effect returning true/false/None/text, undefined names, or expressions '
                 '(f(), not n, n == lit, bare name); repeated names inside a chain; bodies re-reference condition names at nesting '
-                'depth 0..3; exhaustive over 7 core condition kinds for chains of length <= 3 (quick) / 4 (thorough) = every truth '
+                'depth 0..3; repeated expression texts in one chain; each program also with the k-th callable invocation raising '
+                'KeyError / NameError / ValueError / E2; exhaustive over 7 core condition kinds for chains of length <= 3 (quick) / 4 (thorough) = every truth '
                 'assignment, random beyond; non-trivial = distinct (form, condition kinds, else?) tuples')
     items = []
     kmax = 3 if tier == 'quick' else 4
@@ -318,7 +357,7 @@ def run(res, tier, have_driver):
         items += list(gen_exhaustive(r, k, CORE_KINDS))
     for _ in range(1500 if tier == 'quick' else 20000):
         items.append(gen_random(r))
-    runs = check(res, items, have_driver)
+    runs = check(res, items, have_driver, r)
     res.exhaustive = False
     for i in (0, len(runs) // 2, len(runs) - 1):
         c, plan, impl, m = runs[i]
@@ -334,7 +373,7 @@ def search_more(res, tier):
     items = [gen_random(r) for _ in range(6000)]
     for k in (4,):
         items += list(gen_exhaustive(r, k, CORE_KINDS))
-    check(res2, items, False)
+    check(res2, items, False, r)
     return res2.oracle_fail
 
 
